@@ -522,7 +522,7 @@ def decode_dir(short, vals, meta):
     """validate_path_sym[10]: buf:[u8;N] n:usize ; node_encoding: auto_gzip is_gzipped stale_ce stale_vary (bool)"""
     r = Reader(vals)
     if short.startswith("validate_path_sym"):
-        N = 13 if short.endswith("13") else 10 if short.endswith("10") else 7
+        N = 16 if short.endswith("16") else 13 if short.endswith("13") else 10 if short.endswith("10") else 7
         buf = read_array(r, N)
         n = r.usize()
         if n > N or any(c >= 0x80 for c in buf[:n]):
